@@ -36,6 +36,9 @@ def run(ctx: Ctx) -> None:
         total = run_slices(ctx, (["E"] if quick else ["A", "B", "C", "D", "E", "F"]) + (["G"] if kind_tla == "dataclass" else []), {"F": 1}, twins=False, kind_tla=kind_tla, kinds=kinds,
                            every=2 if quick else 1)
         report_layout(ctx, total, "C01")
+    # enums under every representation provider, unbound / bound to one / to several predicates (shared with C18)
+    from .c18 import run_enums
+    run_enums(ctx)
     ctx.exhaustive = True
 
 
